@@ -98,6 +98,16 @@ Theorem C02_ext_oer_bitmap_format : forall pres bm, oer_ext_bitmap pres = Some b
 Proof. exact oer_ext_bitmap_format. Qed.
 Print Assumptions C02_ext_oer_bitmap_format.
 
+(* -- X.696 16.2-16.3: the preamble = extension bit, then the presence bits of the OPTIONAL/DEFAULT root components, zero
+      padded to whole octets: the extension bit is the FIRST bit of the encoding for any number of such components -- *)
+Theorem C02_ext_oer_preamble_format : forall tg root adds rvs avs bs,
+  ext_oer (ESeq tg root adds) (EVSeq rvs avs) = Some bs ->
+  exists tail,
+    bytes_bits bs = (existsb is_present avs :: presence_bits root rvs)
+                    ++ repeat false (pad_len (S (length (presence_bits root rvs)))) ++ bytes_bits tail.
+Proof. exact ext_oer_preamble_format. Qed.
+Print Assumptions C02_ext_oer_preamble_format.
+
 (* -- X.691 11.2 / 11.9.3.5-8: the open type is the contents cut into fragments, each behind its length octet(s) -- *)
 Theorem C02_ext_open_type_is_spec : forall c, open_type c = open_type_spec c.
 Proof. exact open_type_is_spec. Qed.
@@ -132,22 +142,29 @@ Theorem C02_ext_open_type_content_nonempty : forall std t v c, uper_encode std t
 Proof. exact uper_encode_nonempty. Qed.
 Print Assumptions C02_ext_open_type_content_nonempty.
 
-(* -- X.691 11.9.3.4 / 11.6: the C's writers agree with the standard up to 64 / 63 and are refuted above -- *)
-Theorem C02_ext_nslength_partial : forall n, n <= 64 -> nslength false n = nslength true n.
-Proof. exact nslength_small_agree. Qed.
-Print Assumptions C02_ext_nslength_partial.
+(* -- X.691 11.9.3.4 / 11.6: the bits uper_put_nslength / uper_put_nsnnwn write, for every count they accept
+      (above 64 / 63: the single bit 1 first), and the C's readers read them back -- *)
+Theorem C02_ext_nslength_format : forall n b, nslength n = Some b ->
+  (1 <= n <= 64 /\ b = false :: nbits 6 (n - 1)) \/
+  (64 < n < 16384 /\ b = true :: frag_header n).
+Proof. exact nslength_format. Qed.
+Print Assumptions C02_ext_nslength_format.
 
-Theorem C02_ext_nslength_refuted : exists t v, ext_uper false t v <> ext_uper true t v.
-Proof. exact ext_uper_nslength_not_standard_refuted. Qed.
-Print Assumptions C02_ext_nslength_refuted.
+Theorem C02_ext_nslength_readback : forall n b r, nslength n = Some b -> get_nslength (b ++ r) = Some (n, r).
+Proof. exact nslength_rt. Qed.
+Print Assumptions C02_ext_nslength_readback.
 
-Theorem C02_ext_nsnnwn_partial : forall n, n <= 63 -> nsnnwn false n = nsnnwn true n.
-Proof. exact nsnnwn_small_agree. Qed.
-Print Assumptions C02_ext_nsnnwn_partial.
+Theorem C02_ext_nsnnwn_format : forall n b, nsnnwn n = Some b ->
+  (0 <= n <= 63 /\ b = false :: nbits 6 n) \/
+  (exists k, 63 < n /\ 1 <= k <= 3 /\ 256 ^ (k - 1) <= n < 256 ^ k /\
+             b = true :: nbits 8 k ++ nbits (Z.to_nat (8 * k)) n).
+Proof. exact nsnnwn_format. Qed.
+Print Assumptions C02_ext_nsnnwn_format.
 
-Theorem C02_ext_nsnnwn_refuted : exists n b, nsnnwn false n = Some b /\ get_nsnnwn b <> Some (n, []).
-Proof. exact nsnnwn_c_refuted. Qed.
-Print Assumptions C02_ext_nsnnwn_refuted.
+Theorem C02_ext_nsnnwn_readback : forall n b r, n < 65536 ->
+  nsnnwn n = Some b -> get_nsnnwn (b ++ r) = Some (n, r).
+Proof. exact nsnnwn_rt. Qed.
+Print Assumptions C02_ext_nsnnwn_readback.
 
 (* -- version brackets: asn1c's flattened reading is not the standard's grouped one -- *)
 Theorem C02_ext_version_brackets_refuted :
